@@ -5,7 +5,8 @@ CONSTANTS
   Ns = {2, 3}
   Routes = {"seq", "factor", "joint"}
   Offs = {0}
-  CondKinds = {"Cond", "CondDiag"}
+  CondKinds = {"Cond", "CondDiag", "CondId"}
+  IidModes = {FALSE, TRUE}
 INIT Init
 NEXT Next
 CHECK_DEADLOCK FALSE
